@@ -450,7 +450,9 @@ fn string_length(
     } else {
         &model::Value::Node(vec![node])
     };
-    Ok(model::Value::Number(String::try_from(arg)?.len() as f64))
+    Ok(model::Value::Number(
+        String::try_from(arg)?.chars().count() as f64
+    ))
 }
 
 fn normalize_space(
